@@ -756,8 +756,8 @@ func Spec() *mon.Spec {
 		},
 		ChildSetup: childSetup,
 		Phases: []mon.Phase{
-			{Name: "tree", Quick: 2400, Thorough: 60000, Run: runTree, Batch: 150},
-			{Name: "reuse", Quick: 600, Thorough: 15000, Run: runReuse, Batch: 40},
+			{Name: "tree", Quick: 2400, Thorough: 30000, Run: runTree, Batch: 150},
+			{Name: "reuse", Quick: 600, Thorough: 8000, Run: runReuse, Batch: 40},
 		},
 		Floors: map[string]int{
 			"distinct_nontrivial": 15000, "patterns": 25000, "pat_starstar": 8000, "pat_multi_starstar": 800,
